@@ -7,7 +7,35 @@ type PropMeta struct {
 	Assumptions []string
 }
 
-var metas = map[string]PropMeta{}
+var idxAssume = []string{
+	"documents are values of the go-openapi/spec model (finite trees of the struct types read from go/types)",
+	"jsonpointer resolves tokens through the json struct tags and the JSONLookup methods of go-openapi/spec (ResponsesProps.Default is 'default'; Paths.Paths, StatusCodeResponses, SchemaOrArray and SchemaOrBool members are flattened)",
+	"jsonpointer.Escape is the only escaper needed for a map key to become one pointer token; path.Join does not alter tokens free of '.', '..' and empty segments (the alphabet of C01 excludes those names)",
+	"the abstract evaluation takes every branch (except conditions over two constants or fully known keys), evaluates each loop body once with a symbolic key/index, inlines module calls and bounds recursion at depth 2; a construct it cannot model yields an unknown value that is reported, never silently accepted as equal",
+}
+
+var metas = map[string]PropMeta{
+	"C11": {
+		Explanation: "Abstract evaluation of analysis.New over a symbolic document. For every position of the spec model that can hold a parameter, response, header, items, path item, operation or schema (enumerated from go/types) and for every schema-bearing field of spec.SchemaProps, the rules decide: a $ref there is registered in the index of its kind (the index is identified by the exported getter that reads it), under exactly the JSON pointer of its holder, mirrored in the all-view, and under no other condition than the $ref being non-empty.",
+		NotDecided:  []string{"multiplicity when two holders map to one key (excluded for C01's alphabet by ENC-SPLICE)", "shared parameters/responses that are themselves $refs (exempt: outside the quantifier, unsupported by spec.ExpandSpec)", "`dependencies` (not in C11's keyword list)"},
+		Assumptions: idxAssume,
+	},
+	"C12": {
+		Explanation: "Abstract evaluation of analysis.New: every schema registration is keyed by the JSON pointer of the schema it stores — constant segments equal the json tags, map keys are pointer-escaped, indices are the loop's own — at every model position and below every schema-bearing keyword (recursion step checked at depth 2); SchemaRef.Ref is built from the same key; TopLevel is true exactly at Definitions[*]; the allOf view is guarded exactly by len(AllOf)>0.",
+		NotDecided:  []string{"net/url round-tripping of the fragment (trusted)", "consumer side (replace.getPointerFromKey) is decided under C04/C01 rules"},
+		Assumptions: idxAssume,
+	},
+	"C13": {
+		Explanation: "Abstract evaluation of analysis.New: for each owner kind at each model position, pattern and enum are registered in the category index read by the matching exported getter and in the all-view, under the owner's JSON pointer, guarded exactly by non-emptiness.",
+		NotDecided:  []string{"nothing beyond the trusted base: the rules cover every position of the model"},
+		Assumptions: idxAssume,
+	},
+	"C14": {
+		Explanation: "Abstract evaluation of analysis.New for the operations index and the required-media/security unions, exhaustiveness over the seven *spec.Operation fields, upper-case discipline of insertion and lookup, and the nil-vs-empty guard shape of the precedence functions.",
+		NotDecided:  []string{"the values of the precedence/union tables on concrete lists (value-level)", "OperationForName on duplicate or empty ids (outside the quantifier)"},
+		Assumptions: idxAssume,
+	},
+}
 
 // Meta returns the evidence text for a property.
 func Meta(prop string) PropMeta {
